@@ -67,7 +67,16 @@ class Oracle(simcheck.BaseOracle):
         if any(p - now == delay_ms for p in pts):
             self.n_boundary += 1
         self.req.append({"kind": kind, "o": order, "t": now, "delay": delay_ms, "eff": eff, "mid": mid, "done": False,
-                         "frags0": len(order.simulated.matched), "batch": False})
+                         "frags0": len(order.simulated.matched), "resp0": self.responses(order, kind)})
+
+    @staticmethod
+    def responses(o, kind):
+        """how many handler responses of this kind the order has received (a handler appends one when it runs)"""
+        if kind == "place":
+            return 0 if o.responses.place_response is None else 1
+        if kind == "update":
+            return len(o.responses.update_responses)
+        return len(o.responses.cancel_responses)      # cancel, and the cancel part of a replace
 
     def after_update(self, run, mb):
         pt = mb.publish_time_epoch
@@ -81,6 +90,10 @@ class Oracle(simcheck.BaseOracle):
             st = o.status.name if o.status else None
             names = [x.name for x in o.status_log]
             who = "%s of order %d requested at %d (delay %s ms)" % (r["kind"], o._vidx, r["t"], float(r["delay"]))
+            if (r["eff"] is None or pt < r["eff"]) and self.responses(o, r["kind"]) != r["resp0"] and st != "VIOLATION":
+                self.add("handler-ran-too-early", "%s: the execution handler already answered at %d (expected effect at %s)" % (who, pt, r["eff"]))
+            if pt == r["eff"] and self.responses(o, r["kind"]) == r["resp0"] and st not in ("VIOLATION", "EXECUTION_COMPLETE"):
+                self.add("handler-did-not-run", "%s: no response at its effect update %d" % (who, pt))
             if r["eff"] is None or pt < r["eff"]:
                 # must not have taken effect yet
                 if r["kind"] == "place":
